@@ -33,6 +33,7 @@ TAGS = {
     "ctsan": ("clang++", ["-O1", "-fsanitize=thread"], ["-fsanitize=thread"]),
     "plain": ("g++", ["-O1"], []),
     "plain2": ("g++", ["-O2"], []),
+    "cplain": ("clang++", ["-O2"], []),      # another compiler AND another optimisation level, uninstrumented
     "cfuzz": ("clang++", ["-O1", "-fsanitize=fuzzer,address,undefined",
                           "-fno-sanitize-recover=all", "-fno-sanitize=object-size"],
               ["-fsanitize=fuzzer,address,undefined"]),
